@@ -10,7 +10,7 @@ def dump_mir(crate_dir, out_path, overflow_checks=True, extra_env=None):
     libs = os.path.join(crate_dir, "src", "lib.rs")
     os.utime(libs, None)
     env = C.env({"CARGO_TARGET_DIR": os.path.join(C.BUILD, "t-mir-" + ("dev" if overflow_checks else "rel"))})
-    cmd = ["cargo", "+nightly", "rustc", "--offline", "--lib", "--", "-Zunpretty=mir", "-C", "debug-assertions=off",
+    cmd = ["cargo", "+nightly", "rustc", "--offline", "--lib", "--", "--cfg", "vreplay", "-Zunpretty=mir", "-C", "debug-assertions=off",
            "-C", "overflow-checks=" + ("on" if overflow_checks else "off")]
     p = subprocess.run(cmd, cwd=crate_dir, env=env, stdout=subprocess.PIPE, stderr=subprocess.PIPE)
     if p.returncode != 0 or len(p.stdout) < 1000:
